@@ -40,7 +40,7 @@ pub struct SupplyOutcome {
 
 fn write_actor_scripts(level: &LevelSpec, side: &std::path::Path) {
     for i in &level.layout.inspect {
-        let p = side.join("actors").join(format!("{}.json", i.actor.id));
+        let p = side.join("actors").join(format!("{}.json", i.actor.id.replace('/', "_")));
         std::fs::write(p, serde_json::to_vec(&i.actor).unwrap()).expect("write actor script");
     }
     for f in &level.files {
